@@ -248,6 +248,9 @@ func (eq *externalBaseQueue) Worker() Worker {
 }
 
 func (eq *externalBaseQueue) Purge() {
+	// let the event loop release WaitUntilFinished callers if nothing is left
+	defer eq.w.notifyToPullNextJobs()
+
 	// persistent and distributed queues hold serialized jobs: there is
 	// no handle to release, the adapter just drops its entries
 	if _, ok := eq.q.(IAcknowledgeable); ok {
